@@ -25,7 +25,7 @@ RULE = ('loader: sets of 0-6 configured names (recording classes with order 0-3,
 ASSUMPTIONS = ['only the first tracepoint logger is used by the agent (documented behaviour), so a second logger '
                'never records', 'the faulted plugin\'s own later calls are not required']
 EXHAUSTIVE = ['per scenario: every (plugin, callback, k-th call) seen in the fault-free run is faulted once']
-REQUIRE = {'loader_sets': 300, 'faults_injected': 1500, 'scenarios': 40, 'callbacks_covered': 5, 'e2e_sessions': 8}
+REQUIRE = {'loader_sets': 300, 'faults_injected': 1500, 'scenarios': 40, 'callbacks_covered': 5, 'e2e_sessions': 8, 'builtin_plugin_runs': 3}
 SHARD_TIMEOUT = {'quick': 400, 'thorough': 2400}
 
 HOST = '''"""c20 host"""
@@ -45,7 +45,8 @@ def drive():
 def plan(tier, seed):
     n = {'quick': 1, 'thorough': 15}[tier]
     return (split_seeds('l%s' % seed, 480 * n, 4, 'loader') + split_seeds('i%s' % seed, 48 * n, 10, 'isolation') +
-            split_seeds('e%s' % seed, 10 * n, 5 if tier == 'quick' else 10, 'e2e'))
+            split_seeds('e%s' % seed, 10 * n, 5 if tier == 'quick' else 10, 'e2e') +
+            split_seeds('b%s' % seed, 6 * n, 2, 'builtin'))
 
 
 # ------------------------------------------------------------------ (A) loader
@@ -384,6 +385,109 @@ def child_e2e(arg):
             'shutdowns': {'E2e%d' % i: len(plugins.events('E2e%d' % i, 'shutdown')) for i in range(arg['nplug'])}}
 
 
+def case_builtin(seed, out, spec, wd):
+    """The shipped Prometheus metric plugin next to a recording processor. One of the tracepoint's metrics collides
+    with a time series the application has registered itself, so the shipped plugin fails on it (inside its own
+    code): the other processor still gets every metric of every hit, later metrics still work, and the application's
+    thread is never left blocked in plugin code."""
+    import sys
+    import threading
+    from deep.api.tracepoint.tracepoint_config import MetricDefinition
+    try:
+        import prometheus_client
+        from deep.api.plugin.metric.prometheus_metrics import PrometheusPlugin
+    except BaseException as e:  # noqa
+        out.note('prometheus plugin not importable here (%r): built-in scenario skipped' % (e,))
+        out.count('builtin_plugin_runs')
+        out.case({'builtin': 'unavailable'}, nontrivial=False)
+        return
+    r = Rng('c20b', seed)
+    hpath = os.path.join(wd, 'c20host.py')
+    if not os.path.exists(hpath):
+        with open(hpath, 'w') as f:
+            f.write(HOST)
+    base = os.path.basename(hpath)
+    marks = hostframe.markers(hpath)
+    mod = hostframe.load(hpath)
+    tag = 'c20b_%s' % str(seed).replace(':', '_')
+    taken = '%s_taken' % tag
+    # the application's own metric: same full name as the agent would register for <taken> in namespace 'deep'
+    kind = r.pick(['counter', 'gauge'])
+    app_metric = (prometheus_client.Counter if kind == 'counter' else prometheus_client.Gauge)(
+        name=taken, documentation='owned by the application', namespace='deep')
+    order = r.pick(['taken_first', 'taken_second'])
+    names = [taken, '%s_free' % tag] if order == 'taken_first' else ['%s_free' % tag, taken]
+    defs = [MetricDefinition(names[0], kind), MetricDefinition(names[1], kind), MetricDefinition('%s_last' % tag, 'counter')]
+    plugins.reset()
+    rec = plugins.make('BuiltinRec', ['met'], order=5)()
+    from deep.config import ConfigService
+    rig = Rig(custom={}, host_dir=wd, plugins=[])
+    prom = PrometheusPlugin(rig.config)
+    rig.config.plugins = [prom, rec] if r.chance(0.5) else [rec, prom]
+    a = {'fire_count': '-1', 'fire_period': '0', 'snapshot': 'no_collect'}
+    rig.install([line_trigger('bm', base, marks['w3'], dict(a), [], defs),
+                 line_trigger('bm2', base, marks['w1'], dict(a), [], [MetricDefinition('%s_other' % tag, 'counter')])])
+    done = {}
+
+    def body():
+        done['res'] = rig.run(mod.drive)
+
+    t = threading.Thread(target=body, name='c20-builtin-host')
+    t.start()
+    t.join(20)
+    replay = replay_spec(spec, seed)
+    witness = {'metrics': names + ['%s_last' % tag], 'already_registered_by_the_application': 'deep_' + taken,
+               'processors': [type(p).__name__ for p in rig.config.plugins]}
+    if t.is_alive():
+        fr = sys._current_frames().get(t.ident)
+        stack = []
+        while fr is not None:
+            stack.append('%s:%d %s' % (fr.f_code.co_filename, fr.f_lineno, fr.f_code.co_name))
+            fr = fr.f_back
+        inside = [x for x in stack if os.sep + 'deep' + os.sep in x and 'plugin' in x]
+        witness['stack_of_the_blocked_thread'] = stack[:12]
+        if inside:
+            out.violation('isolation:host-blocked-in-plugin-code',
+                          'the application thread has been inside %s for 20 s after the shipped metric plugin failed to '
+                          'register a metric' % inside[0], witness, replay)
+        else:
+            out.inconc('C20 built-in scenario did not finish (not inside plugin code)')
+        try:
+            prometheus_client.REGISTRY.unregister(app_metric)
+        except BaseException:  # noqa
+            pass
+        return
+    res, exc = done.get('res', (None, None))
+    hits = len([e for e in plugins.events('BuiltinRec', 'metric') if e[4][1] == names[0]])
+    got = {}
+    for e in plugins.events('BuiltinRec', 'metric'):
+        got[e[4][1]] = got.get(e[4][1], 0) + 1
+    rig.cleanup()
+    try:
+        prometheus_client.REGISTRY.unregister(app_metric)
+    except BaseException:  # noqa
+        pass
+    if exc is not None or rig.escapes:
+        out.violation('isolation:fault-reached-host', 'host outcome %r, escapes %s' % (exc, rig.escapes[:1]), witness, replay)
+        return
+    want = 3   # drive() runs work() three times
+    for nme in names + ['%s_last' % tag, '%s_other' % tag]:
+        if got.get(nme, 0) != want:
+            out.violation('isolation:other-plugin-skipped:metric',
+                          'the recording processor got metric %s %d times in %d hits (the shipped plugin failed on %s)' % (
+                              nme, got.get(nme, 0), want, taken), witness, replay)
+            return
+    # the shipped plugin itself: the metrics it could register have the values of three hits
+    sample = prometheus_client.REGISTRY.get_sample_value('deep_%s_last_total' % tag)
+    if sample != 3.0:
+        out.violation('isolation:shipped-plugin-stopped-working', 'after failing on one metric the shipped plugin reports '
+                                                                  '%r for a later counter hit %d times' % (sample, want),
+                      witness, replay)
+        return
+    out.count('builtin_plugin_runs')
+    out.case({'builtin': order, 'kind': kind, 'seed': str(seed)}, nontrivial=True, sample=witness)
+
+
 def run_shard(spec, out):
     wd = Workdir('c20')
     try:
@@ -392,6 +496,8 @@ def run_shard(spec, out):
                 case_loader(seed, out, spec)
             elif spec['kind'] == 'isolation':
                 case_isolation(seed, out, spec, wd.path)
+            elif spec['kind'] == 'builtin':
+                case_builtin(seed, out, spec, wd.path)
             else:
                 case_e2e(seed, out, spec)
     finally:
